@@ -35,6 +35,11 @@ type History struct {
 	Keys   string `json:"keys"`     // int | intrev | string
 	ClockN int64  `json:"clock_ns"` // offset of the simulated clock at New
 	Ops    []KOp  `json:"ops"`
+	// PrintAt, when non-empty, lists the operation indexes after which the
+	// printed form is taken and checked (always after the last one); empty:
+	// after every operation. Printing is an operation of its own: a list may
+	// not remember anything from the previous printing.
+	PrintAt []int `json:"print_at,omitempty"`
 }
 
 func (h History) String() string { b, _ := json.Marshal(h); return string(b) }
@@ -94,6 +99,21 @@ func runHistory[K comparable](h History, universe []K, cmp ord.Ord[K], show func
 	var list maplike.MapLike[K, int] = skiplist.New[K, int](cmp)
 	ref := map[K]int{}
 	less := func(a, b K) bool { return cmp.Compare(a, b) == ord.LT }
+	// statistics use the printed form taken after the previous operation, if
+	// any: they never print on their own (printing is an operation too)
+	var lastNodes []pnode
+	lastAt := -2
+	heightNow := func(n int, key string) int {
+		if lastAt != n-1 {
+			return 0
+		}
+		for _, nd := range lastNodes {
+			if nd.key == key {
+				return len(nd.fingers)
+			}
+		}
+		return 0
+	}
 	for n, op := range h.Ops {
 		k := universe[op.I%len(universe)]
 		tallBefore := 0
@@ -101,7 +121,7 @@ func runHistory[K comparable](h History, universe []K, cmp ord.Ord[K], show func
 		case "put":
 			_, existed := ref[k]
 			if existed && st != nil {
-				tallBefore = heightOf(list, show(k))
+				tallBefore = heightNow(n, show(k))
 			}
 			r := list.Put(k, op.V)
 			ref[k] = op.V
@@ -118,7 +138,7 @@ func runHistory[K comparable](h History, universe []K, cmp ord.Ord[K], show func
 			}
 		case "remove":
 			if _, ok := ref[k]; ok && st != nil {
-				if heightOf(list, show(k)) >= 3 {
+				if heightNow(n, show(k)) >= 3 {
 					st.removeTall++
 				}
 				if len(ref) == 1 {
@@ -142,10 +162,20 @@ func runHistory[K comparable](h History, universe []K, cmp ord.Ord[K], show func
 			}
 		}
 		// C18.b: printed form
+		if len(h.PrintAt) > 0 && n != len(h.Ops)-1 {
+			at := false
+			for _, i := range h.PrintAt {
+				at = at || i == n
+			}
+			if !at {
+				continue
+			}
+		}
 		nodes, err := parseList(fmt.Sprint(list))
 		if err != nil {
 			return viol("C18.b", "printed form cannot be parsed", "history %v: after op %d: %v", h, n, err)
 		}
+		lastNodes, lastAt = nodes[1:], n
 		live := nodes[1:] // the first node is the head sentinel carrying the zero key
 		keys := make([]K, 0, len(ref))
 		for k := range ref {
@@ -162,8 +192,23 @@ func runHistory[K comparable](h History, universe []K, cmp ord.Ord[K], show func
 			}
 			pos[nd.key] = i
 		}
-		// forward pointers: each names a strictly larger live key; level i is a
-		// sub-chain of level i−1
+		// every printed forward pointer of every node names a strictly larger
+		// live key (or nil)
+		for i, nd := range nodes {
+			for lvl, f := range nd.fingers {
+				if f == "nil" {
+					continue
+				}
+				nx, ok := pos[f]
+				if !ok {
+					return viol("C18.b", "a forward pointer names a key that is not live", "history %v: after op %d: node %q level %d points to %q; live %v", h, n, nd.key, lvl, f, pkeys(live))
+				}
+				if i > 0 && nx <= i-1 {
+					return viol("C18.b", "a forward pointer does not point to a strictly larger key", "history %v: after op %d: node %q (position %d) level %d points to %q (position %d)", h, n, nd.key, i-1, lvl, f, nx)
+				}
+			}
+		}
+		// level chains: each level is a sub-chain of level i−1
 		all := nodes
 		maxLevels := len(all[0].fingers)
 		for lvl := 0; lvl < maxLevels; lvl++ {
@@ -210,19 +255,6 @@ func runHistory[K comparable](h History, universe []K, cmp ord.Ord[K], show func
 		st.ops += len(h.Ops)
 	}
 	return nil
-}
-
-func heightOf[K any](list maplike.MapLike[K, int], key string) int {
-	nodes, err := parseList(fmt.Sprint(list))
-	if err != nil {
-		return 0
-	}
-	for _, n := range nodes[1:] {
-		if n.key == key {
-			return len(n.fingers)
-		}
-	}
-	return 0
 }
 
 func pkeys(ns []pnode) []string {
@@ -301,6 +333,17 @@ func genHistory(r *driver.Rand, thorough bool) History {
 			op = KOp{K: driver.Pick(r, "put", "get", "remove"), I: k, V: r.Intn(100)}
 		}
 		h.Ops = append(h.Ops, op)
+	}
+	if r.Chance(1, 3) {
+		// print only now and then
+		for i := 0; i < n; i++ {
+			if r.Chance(1, 4) {
+				h.PrintAt = append(h.PrintAt, i)
+			}
+		}
+		if len(h.PrintAt) == 0 {
+			h.PrintAt = []int{0}
+		}
 	}
 	return h
 }
